@@ -14,7 +14,7 @@
    Every theorem quantifies over all configurations, all answers of the beacon node (any slots,
    any validators, duplicates), all clock positions and all histories. *)
 From Verif Require Import Lib.Base Model.C03_ChainTime Model.C03_Controller Model.C03_Spec
-     Proofs.C03_ChainTime Proofs.C03_Table Proofs.C03_Sched Proofs.C03_Hist Proofs.C03_More Proofs.C03_Merge Proofs.C03_Witness.
+     Proofs.C03_ChainTime Proofs.C03_Table Proofs.C03_Sched Proofs.C03_Hist Proofs.C03_More Proofs.C03_Merge Proofs.C03_Witness Check.C03 Proofs.C03_Check.
 From Coq Require Import Permutation Sorted.
 Open Scope Z_scope.
 
@@ -508,3 +508,30 @@ Example C03_merge_nonvacuous :
                       {| fd_slot := 5; fd_val := 1; fd_comm := 0; fd_vci := 7; fd_clen := 12; fd_cas := 4 |} ]) =
   [ (4, [9], [0]); (5, [1; 3], [0; 1]) ].
 Proof. vm_compute. reflexivity. Qed.
+
+(* =========================================================================================== *)
+(* What the check's predicates mean (Check/C03.v).  P_b is evaluated on the OBSERVED outputs of the
+   implementation alone; its MergeDuties and "no slot twice" parts imply the property's relations;
+   and whenever [agree] holds for a history run on the real controller, the model's theorem
+   transfers to the observed Attest / Propose invocations. *)
+Theorem C03_P_merge_sound : forall ds out,
+  P_merge ds out = true ->
+  Forall merged_ok out /\
+  Sorted N.lt (map md_slot out) /\
+  (forall d, In d ds -> count_in d ds = count_out d out) /\
+  fold_right (fun m acc => Nat.add (length (md_vals m)) acc) 0%nat out = length ds.
+Proof. exact P_merge_sound. Qed.
+Print Assumptions C03_P_merge_sound.
+
+Theorem C03_P_hist_no_twice_sound : forall c init ops snaps al pl,
+  P_hist c init ops snaps al pl true = true -> NoDup (map fst al) /\ NoDup (map fst pl).
+Proof. exact P_hist_no_twice. Qed.
+Print Assumptions C03_P_hist_no_twice_sound.
+
+Theorem C03_agree_transfers_no_slot_twice : forall c h ae ops snaps al pl reorg,
+  agree_hist c (Some (h, ae)) ops snaps al pl reorg = true ->
+  0 < ct_spe (c_ct c) -> bounded c 0 ->
+  hist_ok shadowed c 0 (init_state h ae) ops ->
+  NoDup (map fst al) /\ NoDup (map fst pl).
+Proof. exact agree_transfers_no_slot_twice. Qed.
+Print Assumptions C03_agree_transfers_no_slot_twice.
